@@ -708,12 +708,6 @@ class config_get:
 
 
 @spec(uninterpreted=True)
-def with_specials(m: RefMap) -> RefMap:
-    """m plus the three special codes, each standing for itself"""
-    return {**m, "PRS": {"PRS"}, "LXR": {"LXR"}, "TMP": {"TMP"}}
-
-
-@spec(uninterpreted=True)
 def allowed_map(m: RefMap, exc: CfgVal) -> RefMap:
     """the reference map noqa comments are read with.  Without `disable_noqa_except`: m itself.  With it: only the listed
     rules stay referencable -- every reference of m (and PRS / LXR / TMP) keeps exactly those of its codes that some listed
@@ -732,20 +726,18 @@ def allowed_map(m: RefMap, exc: CfgVal) -> RefMap:
 
 @contract("sqlfluff.core.linter.linter:Linter.allowed_rule_ref_map", PROP)
 class allowed_rule_ref_map:
-    """dict comprehension / in-place extension of the argument through an alias are outside the symbolic subset: the
-    executable contract is run natively on the real function (bounded, labelled so); its text is what the two call sites use."""
+    """dict comprehension / dict(...) copy / dict stores are outside the symbolic subset: the executable contract is run
+    natively on the real function (bounded, labelled so); its text is what the two call sites use."""
     types = {"cls": _LinterCls, "reference_map": RefMap, "disable_noqa_except": CfgVal}
     ret = RefMap
-    modifies = ["reference_map"]
     opts = {"native_only": True, "alphabet": "AB1", "max_len": 2}
 
     def ensures(reference_map, disable_noqa_except, result, old):
         c1 = result == allowed_map(old.reference_map, disable_noqa_except)
-        # the caller's map: unchanged but for the three special codes (each standing for itself) -- so that reading the
-        # comments of another variant of the file with the same rule pack gives the same mask
-        c2 = reference_map == old.reference_map or reference_map == with_specials(old.reference_map)
-        c3 = allowed_map(reference_map, disable_noqa_except) == result
-        return c1 and c2 and c3
+        # the caller's map (it belongs to the rule pack, which reads the comments of every variant of the file, and of later
+        # files, with it) is left as it was: a reference or glob of a later noqa comment expands as it would have before
+        c2 = reference_map == old.reference_map
+        return c1 and c2
 
 
 def _build_except(rng, gen):
@@ -772,7 +764,7 @@ class lint_fix_parsed_mask:
              "initial_linting_errors": TList(SQLBaseError), "disable_noqa_except": CfgVal, "allowed_rules_ref_map": RefMap,
              "ignore_mask": TOpt(IgnoreMask), "ivs": TList(SQLBaseError)}
     ghost_out = {"ignore_mask": TOpt(IgnoreMask), "ivs": TList(SQLBaseError), "errs": ("initial_linting_errors", TList(SQLBaseError))}
-    modifies = ["heap:object.segment", "heap:RulePack.reference_map"]
+    modifies = ["heap:object.segment"]
     opts = {"timeout_ms": 10000, "max_unknown": 3}
 
     def ensures(tree, config, rule_pack, initial_linting_errors, ignore_mask, ivs, errs, old):
@@ -799,7 +791,6 @@ class lint_parsed_fallback:
              "disable_noqa_except": CfgVal, "allowed_rules_ref_map": RefMap, "ignore_mask": TOpt(IgnoreMask),
              "ignore_violations": TList(SQLBaseError), "rule_timings": SINK}
     ghost_out = {"ignore_mask": TOpt(IgnoreMask), "ignore_violations": TList(SQLBaseError), "errs": ("violations", TList(SQLBaseError))}
-    modifies = ["heap:RulePack.reference_map"]
     opts = {"timeout_ms": 10000, "max_unknown": 3}
 
     def ensures(parsed, rule_pack, violations, ignore_mask, ignore_violations, errs, old):
@@ -977,8 +968,8 @@ def bounded_mask_builders(tier, seed):
 
 def bounded_allowed_map(tier, seed):
     """Linter.allowed_rule_ref_map's executable contract on the REAL reference map of the bundled rules and on small synthetic
-    maps, for reference lists with codes, names, groups, aliases, globs, special codes and unknown references -- called twice on
-    the same map object (the second call sees the map the first one extended)."""
+    maps, for reference lists with codes, names, groups, aliases, globs, special codes and unknown references -- also on a map
+    object that an earlier call has already been given."""
     import copy
     from sqlfluff.core import FluffConfig, Linter
     from . import c20 as _m
@@ -992,7 +983,7 @@ def bounded_allowed_map(tier, seed):
             m = {k: set(v) for k, v in base.items()}
             cases.append({"cls": _LinterCls, "reference_map": m, "disable_noqa_except": e})
             m2 = {k: set(v) for k, v in base.items()}
-            _LinterCls.allowed_rule_ref_map(m2, e)          # a map an earlier call has already seen
+            _LinterCls.allowed_rule_ref_map(m2, "LT0*,PRS")  # a map an earlier call (another variant / file) has already seen
             cases.append({"cls": _LinterCls, "reference_map": m2, "disable_noqa_except": e})
     return _native_sweep("C20/allowed_rule_ref_map/contract", key, cases, lambda a: bool(a["disable_noqa_except"]),
                          "allowed_rule_ref_map: executable contract", f"{len(cases)} (map, disable_noqa_except) pairs on the real, a synthetic and the empty map")
@@ -1076,8 +1067,7 @@ MUTANTS = [
     ("allowed_map_returns_full", _LINTER, "        return {k: v.intersection(noqa_set) for k, v in output_map.items()}\n", "        return output_map\n"),
     ("allowed_map_no_glob", _LINTER, "            for x in fnmatch.filter(output_map.keys(), r):\n", "            for x in [k for k in output_map if k == r]:\n"),
     ("allowed_map_specials_missing", _LINTER, "            output_map[special_rule] = {special_rule}\n", "            pass\n"),
-    ("allowed_map_clears_shared_map", _LINTER, "        return {k: v.intersection(noqa_set) for k, v in output_map.items()}\n",
-     "        for k in output_map:\n            output_map[k] = output_map[k].intersection(noqa_set)\n        return output_map\n"),
+    ("allowed_map_extends_shared_map", _LINTER, "        output_map = dict(reference_map)\n", "        output_map = reference_map\n"),
     ("mask_reads_full_map", _LINTER, "            ignore_mask, ivs = IgnoreMask.from_tree(tree, allowed_rules_ref_map)\n", "            ignore_mask, ivs = IgnoreMask.from_tree(tree, rule_pack.reference_map)\n"),
     ("mask_errors_dropped", _LINTER, "            initial_linting_errors += ivs\n", "            pass\n"),
     ("mask_off_when_except_set", _LINTER, '        if not config.get("disable_noqa") or disable_noqa_except:\n', '        if not config.get("disable_noqa"):\n'),
@@ -1115,8 +1105,7 @@ TRUSTED = [
 ]
 NOT_COVERED = [
     "Linter.allowed_rule_ref_map is NOT proved (dict comprehension, in-place extension of the caller's map through an alias): native_only "
-    "contract + BOUNDED allowed_rule_ref_map/contract on the real reference map.  It adds PRS / LXR / TMP to rule_pack.reference_map in "
-    "place (C32's subject); here only: nothing else of the map changes and a second call gives the same result",
+    "contract + BOUNDED allowed_rule_ref_map/contract on the real reference map (incl. that the rule pack's own map is left unchanged)",
     "glob semantics (which key a pattern matches) is fnmatch's: `matching` is uninterpreted; that a code / name / group / alias given "
     "literally matches its own key is checked only natively (BOUNDED front end on the real reference map)",
     "under disable_noqa_except a bare `-- noqa` and `noqa: disable=all` still name EVERY rule (rules == None is not restricted to the "
